@@ -140,6 +140,25 @@ class NarwhalsMaterializer(FormulaMaterializer):
     ) -> dict[str, Any]:
         out = {}
 
+        if len(factors) > 1 or scale != 1:
+            # Integer arithmetic silently wraps around, so products of integer
+            # columns are computed in floating point.
+            factors = [
+                {
+                    name: (
+                        numpy.asarray(values.to_numpy(), dtype=float)
+                        if nw.dependencies.is_narwhals_series(values)
+                        and values.dtype.is_integer()
+                        else values.astype(float)
+                        if getattr(getattr(values, "dtype", None), "kind", None)
+                        in ("i", "u")
+                        else values
+                    )
+                    for name, values in factor.items()
+                }
+                for factor in factors
+            ]
+
         names = [
             ":".join(reversed(product))
             for product in itertools.product(*reversed(factors))
